@@ -1,6 +1,7 @@
 CONSTANT MaxLines = 5
 CONSTANT SampleAbove = 4
 CONSTANT SampleOneIn = 25
+CONSTANT PoolSel = "main"
 CONSTANT ExecMode = "canon"
 CONSTANT CompileMode = "outerfirst"
 INIT Init
